@@ -44,6 +44,7 @@ ASSUMPTIONS = ['arguments of two-operand nets have equal bitwidth and mux branch
                'designs of part (b) are limited to widths <= 33 (Wallace trees of wider multipliers make '
                'Simulation of the gate netlist too slow for the budget); theorems are for all widths']
 
+SHAPE_MAX_NETS = 3000   # Coq shapeb is quadratic; larger blocks are checked by its Python mirror only
 OPS = ['add', 'sub', 'mul', 'lt', 'gt', 'eq']
 OPCODE = {o: i for i, o in enumerate(OPS)}
 
@@ -453,7 +454,9 @@ def part_b(ctx):
             census(ctx, post, 'post_nets_merged' if merge else 'post_nets_unmerged')
             okshape, badnet = py_shape_ok(post, merge)
             ctx.count('py_shape_ok', okshape)
-            if uwb:   # one Coq shape evaluation per (design, merge)
+            if uwb and len(post.logic) > SHAPE_MAX_NETS:
+                ctx.count('coq_shapeb', 'skipped: > %d nets (Python mirror only)' % SHAPE_MAX_NETS)
+            elif uwb:   # one Coq shape evaluation per (design, merge)
                 pd = nlx.Dump(post)
                 shape_exprs.append('shape_case %s %s' % ('true' if merge else 'false', pd.coq()))
                 shape_cases.append(dict(i=i, merge=merge, rep=rep, py=okshape, badnet=badnet))
@@ -516,7 +519,7 @@ def part_b(ctx):
                                    'on design %d: %s' % (c['i'], first_diff(t_model, c['t_post'], c['outnames'])), c['rep'])
     # ---- shape predicate (Coq) on every real synthesized block
     try:
-        shape_results = ctx.coq_eval(shape_exprs, IMPORTS_SYNTH, tag='c03shape', shard=6, jobs=12)
+        shape_results = ctx.coq_eval(shape_exprs, IMPORTS_SYNTH, tag='c03shape', shard=3, jobs=14)
     except Exception as e:
         shape_results = None
         ctx.model_mismatch('Pass/SynthHarness.v shape_case could not be evaluated: %s' % str(e)[-600:], {})
